@@ -378,8 +378,9 @@ class ColorValue(Value):
         ok, seq, store, unused = ProdParser().parse(cssText,
                                                     self.type,
                                                     prods)
-        self.wellformed = ok
-        if ok:
+        if not ok:
+            self.wellformed = ok
+        else:
             t, v = seq[0].type, seq[0].value
             if 'IDENT' == t:
                 rgba = self.COLORS[normalize(v)]
@@ -456,6 +457,8 @@ class ColorValue(Value):
                                     '%s (N=Number, P=Percentage)' %
                                     (functiontype, check))
 
+            # commit only after the last check
+            self.wellformed = ok
             self._colorType = t
             self._red, self._green, self._blue, self._alpha = tuple(rgba)
             self._setSeq(seq)
